@@ -174,13 +174,14 @@ func propC08(c *Ctx) {
 
 	f6 := c.Rule("F6", "K9 site table (exact guards)", "RFC 815 hole bookkeeping", 4)
 	if fn := c.Fn(f6, fr+"updateHoles"); fn != nil {
-		m := map[string]string{"HOLE": "$0.holes[(1 + phi{-1 | loop})]", "IN": "((1 + phi{-1 | loop}) < builtin:len($0.holes))"}
-		overlap := sub(m, "{IN}", "!{HOLE}.deleted", "!({HOLE}.last < $1)", "!($2 < {HOLE}.first)")
+		// "@u": the field is re-assigned (append) / written inside the loop, so every load in the body is its own version
+		m := map[string]string{"HOLE": "$0.holes@u[(1 + phi{-1 | loop})]", "IN": "((1 + phi{-1 | loop}) < builtin:len($0.holes))"}
+		overlap := sub(m, "{IN}", "!{HOLE}.deleted@u", "!({HOLE}.last@u < $1)", "!($2 < {HOLE}.first@u)")
 		c.CheckSites(f6, fn, []SiteSpec{
 			{Kind: "store", Target: "fragmentation.hole.deleted", Args: sub(m, "{HOLE}", "true"), Guards: overlap, Exact: true, N: 1, Why: "a live hole is deleted exactly when the fragment overlaps it (first <= hole.last && last >= hole.first)"},
-			{Kind: "store", Target: "fragmentation.reassembler.deleted", Args: []string{"$0", "($0.deleted + 1)"}, Guards: overlap, Exact: true, N: 1, Why: "deleted counter moves with the deletion"},
-			{Kind: "call", Target: "builtin:append", Args: sub(m, "$0.holes", "[fragmentation.hole{first: {HOLE}.first, last: ($1 - 1), deleted: false}]"), Guards: append(append([]string{}, overlap...), sub(m, "({HOLE}.first < $1)")...), Exact: true, N: 1, Why: "left remainder [hole.first, first-1] kept when the fragment starts inside the hole"},
-			{Kind: "call", Target: "builtin:append", Args: sub(m, "$0.holes", "[fragmentation.hole{first: ($2 + 1), last: {HOLE}.last, deleted: false}]"), Guards: append(append([]string{}, overlap...), sub(m, "($2 < {HOLE}.last)", "$3")...), Exact: true, N: 1, Why: "right remainder [last+1, hole.last] kept when the fragment ends inside the hole and more fragments follow"},
+			{Kind: "store", Target: "fragmentation.reassembler.deleted", Args: []string{"$0", "($0.deleted@u + 1)"}, Guards: overlap, Exact: true, N: 1, Why: "deleted counter moves with the deletion"},
+			{Kind: "call", Target: "builtin:append", Args: sub(m, "$0.holes@u", "[fragmentation.hole{first: {HOLE}.first@u, last: ($1 - 1), deleted: false}]"), Guards: append(append([]string{}, overlap...), sub(m, "({HOLE}.first@u < $1)")...), Exact: true, N: 1, Why: "left remainder [hole.first, first-1] kept when the fragment starts inside the hole"},
+			{Kind: "call", Target: "builtin:append", Args: sub(m, "$0.holes@u", "[fragmentation.hole{first: ($2 + 1), last: {HOLE}.last@u, deleted: false}]"), Guards: append(append([]string{}, overlap...), sub(m, "($2 < {HOLE}.last@u)", "$3")...), Exact: true, N: 1, Why: "right remainder [last+1, hole.last] kept when the fragment ends inside the hole and more fragments follow"},
 		})
 	}
 
